@@ -28,7 +28,8 @@ EXPLANATION = (
     "reference best loss > 0, alpha a free Real or the sentinel -1, eps in [0,1], reward free, random draws = uninterpreted terms of "
     "(seed, counter)). z3 proves the update equations, the frame conditions (other entries unchanged), greedy choice for eps=0, index "
     "validity and determinism (two agents with equal seed and equal state pick equal actions). A step from an arbitrary state covers "
-    "reward/observation histories of any length."
+    "reward/observation histories of any length. Base case: the state built by the real constructor and by reset() for initial values "
+    "given as Python int / float / numpy scalars (enumerated element types) followed by 1-3 symbolic updates."
 )
 ASSUMPTIONS = [
     "numpy Generator contract: random() in [0,1), choice(options,1) returns one element of options, draws are a function of (seed, draw counter)",
@@ -186,9 +187,69 @@ def case_init(n):
     def replay(cex):
         iv = float(f(cex.values["init"]))
         ag = eg.MABEpsilonGreedy(n, 0.1, 0.1, initial_values=iv, random_state=0)
-        return (ag.Q != [iv] * n or ag.actions_count != [0] * n), f"Q={ag.Q} counts={ag.actions_count}"
+        q, cnt = [float(x) for x in ag.Q], [int(x) for x in ag.actions_count]  # any container type is fine
+        return (q != [iv] * n or cnt != [0] * n), f"Q={q} counts={cnt}"
 
     return Case(f"init-n{n}", body, replay)
+
+
+INIT_VALUES = [("int 0", 0), ("int 1", 1), ("float 0.0", 0.0), ("float 0.05", 0.05), ("np.int64 1", np.int64(1)), ("np.float32 0.5", np.float32(0.5)), ("int -2", -2)]
+
+
+def case_learn_from_constructor(n, a, iv_name, iv, steps, after_reset=False):
+    """The state the REAL constructor (or reset()) builds - whatever container and element type it chooses for the value the user
+    passed - must follow the update rule too: initial value given as a Python int / float / numpy scalar (enumerated), rewards
+    and alpha symbolic."""
+    name = f"ctor-learn-n{n}-a{a}-{iv_name.replace(' ', '_')}-s{steps}" + ("-reset" if after_reset else "")
+
+    def body(ctx):
+        with _patches():
+            alpha = ctx.real("alpha")
+            agent = eg.MABEpsilonGreedy(n, alpha, ctx.real("eps", 0, 1), initial_values=iv, random_state=ctx.int("seed", 0))
+            if after_reset:
+                agent.reset()
+            q0 = Fraction(0) if after_reset else Fraction(float(iv))
+            rewards = [ctx.real(f"r{s}", 0, 1) for s in range(steps)]
+            expQ = lift(q0)
+            for s in range(steps):
+                agent.learn(0, a, rewards[s], 0)
+                step = z3.If(alpha.t == -1, 1 / z3.RealVal(s + 1), alpha.t)
+                expQ = expQ + step * (rewards[s].t - expQ)
+            ctx.prove(lift(agent.Q[a]) == expQ, "learn_update", f"{name}: estimate after {steps} update(s) from the constructed state")
+            ctx.prove(z3.And(*[lift(agent.Q[i]) == lift(q0) for i in range(n) if i != a], z3.BoolVal(len(agent.Q) == n)), "learn_frame", name)
+            ctx.prove(z3.BoolVal(int(agent.actions_count[a]) == steps), "learn_update", "visit count")
+
+    def replay(cex):
+        v = cex.values
+        alpha = float(f(v.get("alpha") if v.get("alpha") is not None else 0.5))
+        rs = [float(f(v.get(f"r{s}") if v.get(f"r{s}") is not None else 0.5)) for s in range(steps)]
+        # also a generic instance of the same path (the model may sit on a boundary such as reward 0)
+        for al, rr in ((alpha, rs), (alpha, [0.3 + 0.1 * s for s in range(steps)]), (0.5, [0.3 + 0.1 * s for s in range(steps)]), (-1, [0.3 + 0.1 * s for s in range(steps)])):
+            bad, info = replay_ctor_learn(n, a, iv, steps, after_reset, al, rr)
+            if bad:
+                break
+        return bad, info
+
+    return Case(name, body, replay)
+
+
+def replay_ctor_learn(n, a, iv, steps, after_reset, alpha, rs):
+    try:
+        ag = eg.MABEpsilonGreedy(n, alpha, 0.0, initial_values=iv, random_state=0)
+        if after_reset:
+            ag.reset()
+        exp = Fraction(0) if after_reset else Fraction(float(iv))
+        q0 = exp
+        for s, r in enumerate(rs):
+            ag.learn(0, a, r, 0)
+            step = Fraction(1, s + 1) if alpha == -1 else Fraction(alpha)
+            exp = exp + step * (Fraction(r) - exp)
+        got = [float(x) for x in ag.Q]
+    except Exception as e:  # noqa: BLE001
+        return True, f"raised {type(e).__name__}: {e}"
+    tol = Fraction(1, 10**6) * (1 + abs(exp))  # float32 initial values keep their own precision
+    bad = abs(Fraction(got[a]) - exp) > tol or any(abs(Fraction(got[i]) - q0) > tol for i in range(n) if i != a)
+    return bad, f"initial_values={iv!r} ({type(iv).__name__}) alpha={alpha} rewards={rs} action={a}{' after reset()' if after_reset else ''}: estimates {got}, update rule gives {float(exp)} for action {a}"
 
 
 def cases(tier, seed):
@@ -206,6 +267,15 @@ def cases(tier, seed):
             cs.append(case_learn(n, n // 2, steps=5))
     else:
         cs.append(case_learn(2, 1, steps=2))
+    # base case of the induction: the state the real constructor / reset() builds, for each element type of the initial value
+    for iv_name, iv in (INIT_VALUES if tier == "thorough" else INIT_VALUES[:6]):
+        cs.append(case_learn_from_constructor(3, 1, iv_name, iv, 2))
+    cs.append(case_learn_from_constructor(2, 0, "int 1", 1, 2, after_reset=True))
+    cs.append(case_learn_from_constructor(2, 1, "float 0.05", 0.05, 1, after_reset=True))
+    if tier == "thorough":
+        for iv_name, iv in INIT_VALUES:
+            cs.append(case_learn_from_constructor(4, 3, iv_name, iv, 3))
+            cs.append(case_learn_from_constructor(2, 0, iv_name, iv, 2, after_reset=True))
     return cs
 
 
